@@ -362,8 +362,118 @@ TOL = 1e-9
 RHO0 = np.array([[0.6, 0.1 + 0.2j], [0.1 - 0.2j, 0.3]])
 
 
+# ---------------------------------------------------------------------------
+# references recomputed in a process that has not run the history
+
+def ref_eval(kind, vals, what, arg):
+    return evaluate(make_corr(kind, vals), what, arg)
+
+
+def ref_tempo(kind, vals, coupling, steps):
+    import oqupy
+    o = models.ops()
+    bath = oqupy.Bath(COUPLINGS[coupling](o), make_corr(kind, vals))
+    tp = oqupy.TempoParameters(dt=0.1, epsrel=EPSREL, dkmax=2)
+    t = oqupy.Tempo(oqupy.System(0.7 * o["x"] + 0.2 * o["z"]), bath, tp,
+                    np.array(RHO0), 0.0)
+    return t.compute((steps + 0.5) * 0.1, progress_type="silent").states
+
+
+def ref_pt_dynamics(kind, vals, coupling, steps):
+    import oqupy
+    o = models.ops()
+    bath = oqupy.Bath(COUPLINGS[coupling](o), make_corr(kind, vals))
+    tp = oqupy.TempoParameters(dt=0.1, epsrel=EPSREL, dkmax=2)
+    pt = oqupy.pt_tempo_compute(bath, 0.0, (steps + 0.5) * 0.1, tp,
+                                progress_type="silent")
+    return oqupy.compute_dynamics(
+        oqupy.System(0.6 * o["x"] + 0.3 * o["y"]), np.array(RHO0),
+        process_tensor=pt, progress_type="silent").states
+
+
+REF_FUNCS = {"eval": ref_eval, "tempo": ref_tempo,
+             "pt_dynamics": ref_pt_dynamics}
+
+
+class PristineServer:
+    """A child forked before the history starts.  On request it forks a
+    grandchild that computes one reference from plain data and sends it back:
+    every such reference comes from a process that has executed nothing of
+    the history (no memo, no module-level state of earlier computations)."""
+
+    def __init__(self):
+        import os
+        import pickle
+        self.req_r, self.req_w = os.pipe()
+        self.res_r, self.res_w = os.pipe()
+        self.pid = os.fork()
+        if self.pid == 0:
+            try:
+                os.close(self.req_w)
+                os.close(self.res_r)
+                with os.fdopen(self.req_r, "rb") as fin, \
+                        os.fdopen(self.res_w, "wb") as fout:
+                    while True:
+                        try:
+                            name, args = pickle.load(fin)
+                        except EOFError:
+                            break
+                        r, w = os.pipe()
+                        gpid = os.fork()
+                        if gpid == 0:
+                            try:
+                                os.close(r)
+                                try:
+                                    out = ("ok", np.asarray(
+                                        REF_FUNCS[name](*args)))
+                                except Exception as e:  # noqa: BLE001
+                                    out = ("exc", repr(e))
+                                with os.fdopen(w, "wb") as f:
+                                    pickle.dump(out, f)
+                            finally:
+                                os._exit(0)
+                        os.close(w)
+                        with os.fdopen(r, "rb") as f:
+                            data = f.read()
+                        os.waitpid(gpid, 0)
+                        pickle.dump(pickle.loads(data) if data
+                                    else ("exc", "died"), fout)
+                        fout.flush()
+            finally:
+                os._exit(0)
+        os.close(self.req_r)
+        os.close(self.res_w)
+        self.fin = os.fdopen(self.res_r, "rb")
+        self.fout = os.fdopen(self.req_w, "wb")
+
+    def call(self, name, args):
+        import pickle
+        pickle.dump((name, args), self.fout)
+        self.fout.flush()
+        return pickle.load(self.fin)
+
+    def close(self):
+        import os
+        try:
+            self.fout.close()
+            self.fin.close()
+            os.waitpid(self.pid, 0)
+        except OSError:
+            pass
+
+
 def run_case(case, dec):
     import oqupy
+    pristine = PristineServer()
+    try:
+        return _run_case(case, dec, pristine)
+    finally:
+        pristine.close()
+
+
+def _run_case(case, dec, pristine):
+    import oqupy
+    spot = []    # (name, args, in-process reference, tolerance)
     log = EventLog()
     o = models.ops()
     violations = []
@@ -444,6 +554,8 @@ def run_case(case, dec):
                     continue
                 got = evaluate(c["obj"], what, op[3])
                 want = evaluate(make_corr(c["kind"], c["vals"]), what, op[3])
+                spot.append(("eval", (c["kind"], dict(c["vals"]), what,
+                                      op[3]), want, TOL))
                 stats["evals"] += 1
                 if c["touched"]:
                     stats["stale_candidates"] += 1
@@ -540,6 +652,8 @@ def run_case(case, dec):
                                  0.0)
                 want = t2.compute((steps + 0.5) * 0.1,
                                   progress_type="silent").states
+                spot.append(("tempo", (b["kind"], dict(b["vals"]),
+                                       b["coupling"], steps), want, TOL_T))
                 stats["computations"] += 1
                 ok, err = _close(got, want, TOL_T)
                 log.ev("tempo", bi, op[2], op[3], ok)
@@ -604,6 +718,9 @@ def run_case(case, dec):
                     oqupy.System(0.6 * o["x"] + 0.3 * o["y"]),
                     np.array(RHO0),
                     process_tensor=fresh_pt, progress_type="silent").states
+                spot.append(("pt_dynamics", (b["kind"], dict(b["vals"]),
+                                             b["coupling"], p["steps"]),
+                             want, TOL_T))
                 stats["computations"] += 1
                 ok, err = _close(got, want, TOL_T)
                 log.ev(k, pi, ok)
@@ -1065,6 +1182,21 @@ def run_case(case, dec):
                              err, api, dt), holder="System", call=api)
         except InjectedFault:
             raise
+    # a few of the in-process references again, from a process that has not
+    # run this history: earlier computations must not have influenced them
+    picks = spot[-3:] if len(spot) > 3 else spot
+    for name, args, want, tol in picks:
+        status, val = pristine.call(name, args)
+        stats["pristine_rechecks"] = stats.get("pristine_rechecks", 0) + 1
+        if status != "ok":
+            continue
+        ok, err = _close(np.asarray(want), val, tol)
+        if not ok:
+            viol("computation_influenced_by_earlier_ones",
+                 "pristine/%s" % name,
+                 "%s computed on fresh objects at the end of this history "
+                 "differs by %.3g from the same computation in a process "
+                 "that has not run the history" % (name, err), call=name)
     # the operator constants the library hands out must still be what they
     # were (a computation scribbling on a shared module-level array would
     # poison the fresh-object replays as well)
